@@ -16,6 +16,12 @@ import (
 	"golang.org/x/tools/go/ssa"
 )
 
+type jsonBind struct {
+	first *Term // the (fresh, hence unique) first byte of the message
+	n     int
+	obj   value
+}
+
 type nondetRec struct {
 	name string
 	t    *Term
@@ -110,6 +116,7 @@ type interp struct {
 	ufCount     int
 	onceDone    map[*value]bool
 	stubCalls   map[string]int
+	jsonBinds   []jsonBind
 	atomicVals  map[*value]value
 	lastTime    *Term
 	reachedNow  []string
@@ -148,6 +155,7 @@ func (in *interp) resetPath() {
 	in.ufApps = map[string][]*ufApp{}
 	in.onceDone = map[*value]bool{}
 	in.stubCalls = map[string]int{}
+	in.jsonBinds = nil
 	in.atomicVals = map[*value]value{}
 	in.lastTime = nil
 	in.reachedNow = nil
